@@ -23,6 +23,8 @@ def main():
     ap.add_argument("patch")
     ap.add_argument("--demo")
     ap.add_argument("--tests", action="store_true")
+    ap.add_argument("--sequential", action="store_true",
+                    help="run the pinned suite exactly as BASELINE.json does (one process, --timeout=900) instead of -n 8")
     ap.add_argument("--keep", action="store_true")
     ap.add_argument("--json")
     a = ap.parse_args()
@@ -50,8 +52,12 @@ def main():
             res["demo_patched_exit"] = r1.returncode
             res["demo_patched_tail"] = (r1.stdout + r1.stderr)[-400:]
         if a.tests:
-            r2 = subprocess.run([PY, "-m", "pytest", "-q", "-p", "no:cacheprovider", "-n", "8", "tests"], cwd=tmp,
-                                env=dict(os.environ, PYTHONPATH=tmp, OMP_NUM_THREADS="1"), capture_output=True, text=True)
+            cmd = [PY, "-m", "pytest", "-q", "-p", "no:cacheprovider", "--timeout=900"]
+            cmd += ["-ra", "--continue-on-collection-errors"] if a.sequential else ["-n", "8"]
+            r2 = subprocess.run(cmd + ["tests"], cwd=tmp,
+                                env=dict(os.environ, PYTHONPATH=tmp, OMP_NUM_THREADS="4" if a.sequential else "1"),
+                                capture_output=True, text=True)
+            res["tests_cmd"] = " ".join(cmd + ["tests"])
             res["tests_exit"] = r2.returncode
             res["tests_summary"] = r2.stdout.strip().splitlines()[-1] if r2.stdout.strip() else r2.stderr[-300:]
     finally:
